@@ -68,6 +68,30 @@
 #include <upipe-modules/upipe_m3u_reader.h>
 #include <upipe-modules/upipe_rtp_h264.h>
 #include <upipe-modules/upipe_rtp_mpeg4.h>
+#include <upipe-modules/upipe_audio_blank.h>
+#include <upipe-modules/upipe_audio_copy.h>
+#include <upipe-modules/upipe_block_to_sound.h>
+#include <upipe-modules/upipe_crop.h>
+#include <upipe-modules/upipe_rtp_pcm_pack.h>
+#include <upipe-modules/upipe_rtp_pcm_unpack.h>
+#include <upipe-modules/upipe_separate_fields.h>
+#include <upipe-modules/upipe_video_blank.h>
+#include <upipe-modules/upipe_row_join.h>
+#include <upipe-modules/upipe_row_split.h>
+#include <upipe-modules/upipe_void_source.h>
+#include <upipe-modules/upipe_sine_wave_source.h>
+#include <upipe-filters/upipe_audio_bar.h>
+#include <upipe-filters/upipe_audio_graph.h>
+#include <upipe-filters/upipe_audio_max.h>
+#include <upipe-filters/upipe_filter_blend.h>
+#include <upipe-filters/upipe_zoneplate.h>
+#include <upipe/uref_pic.h>
+#include <upipe/uref_pic_flow.h>
+#include <upipe/uref_sound.h>
+#include <upipe/uref_sound_flow.h>
+#include <upipe/uref_void_flow.h>
+#include <upipe/ubuf_pic_mem.h>
+#include <upipe/ubuf_sound_mem.h>
 
 #include <stdlib.h>
 #include <string.h>
@@ -138,10 +162,12 @@ static const char *op_name(int code)
     return code > 0 && code < OP__N ? n[code] : "?";
 }
 
-enum { CFG_PROP = 0, CFG_TYPE, CFG_POOL, CFG_FAULTS, CFG_PROVIDE, CFG_TWIN };
+enum { CFG_PROP = 0, CFG_TYPE, CFG_POOL, CFG_FAULTS, CFG_PROVIDE, CFG_TWIN, CFG_ALLOCDEF };
 
 enum { F_ORDER = 1, F_SAME_PAYLOAD = 2, F_IMMEDIATE = 4,
-       F_COMPLETE = 8 /* documented never to drop: everything accepted comes out once the loop and the clock ran */ };
+       F_COMPLETE = 8, /* documented never to drop: everything accepted comes out once the loop and the clock ran */
+       F_TYPED = 16,   /* works on pictures / sound: only given complete flow definitions and buffers of that kind */
+       F_FLOW_ALLOC = 32 /* allocated with a flow definition (of its output) instead of nothing */ };
 struct ptype { const char *name; struct upipe_mgr *(*mgr_alloc)(void); unsigned flags; };
 static const struct ptype types[] = {
     { "buffer", upipe_buffer_mgr_alloc, F_ORDER | F_SAME_PAYLOAD | F_COMPLETE }, { "burst", upipe_burst_mgr_alloc, F_ORDER | F_SAME_PAYLOAD | F_COMPLETE },
@@ -159,12 +185,29 @@ static const struct ptype types[] = {
     { "aggregate", upipe_agg_mgr_alloc, 0 }, { "chunk_stream", upipe_chunk_stream_mgr_alloc, 0 },
     { "m3u_reader", upipe_m3u_reader_mgr_alloc, 0 }, { "rtp_h264", upipe_rtp_h264_mgr_alloc, 0 },
     { "rtp_mpeg4", upipe_rtp_mpeg4_mgr_alloc, 0 },
+    /* pictures and sound (second batch) */
+    { "crop", upipe_crop_mgr_alloc, F_TYPED }, { "separate_fields", upipe_separate_fields_mgr_alloc, F_TYPED },
+    { "filter_blend", upipe_filter_blend_mgr_alloc, F_TYPED }, { "audio_max", upipe_amax_mgr_alloc, F_TYPED },
+    { "row_join", upipe_row_join_mgr_alloc, F_TYPED }, { "rtp_pcm_pack", upipe_rtp_pcm_pack_mgr_alloc, F_TYPED },
+    { "rtp_pcm_unpack", upipe_rtp_pcm_unpack_mgr_alloc, F_TYPED }, { "sine_wave_source", upipe_sinesrc_mgr_alloc, F_TYPED },
+    { "audio_blank", upipe_ablk_mgr_alloc, F_TYPED | F_FLOW_ALLOC }, { "audio_copy", upipe_audio_copy_mgr_alloc, F_TYPED | F_FLOW_ALLOC },
+    { "block_to_sound", upipe_block_to_sound_mgr_alloc, F_TYPED | F_FLOW_ALLOC }, { "video_blank", upipe_vblk_mgr_alloc, F_TYPED | F_FLOW_ALLOC },
+    { "row_split", upipe_row_split_mgr_alloc, F_TYPED | F_FLOW_ALLOC }, { "audio_bar", upipe_audiobar_mgr_alloc, F_TYPED | F_FLOW_ALLOC },
+    { "audio_graph", upipe_agraph_mgr_alloc, F_TYPED | F_FLOW_ALLOC }, { "void_source", upipe_voidsrc_mgr_alloc, F_TYPED | F_FLOW_ALLOC },
+    { "zoneplate", upipe_zp_mgr_alloc, F_TYPED | F_FLOW_ALLOC },
 };
 #define NTYPES (int)(sizeof(types) / sizeof(types[0]))
 
 static const char *const defs[] = { "block.", "block.mpegts.", "block.h264.", "void.", "block.m3u.", "block.aac.",
                                     "block.mpeg4.", "block.foo.bar.", "pic.", "sound.s16." };
 #define NDEFS (int)(sizeof(defs) / sizeof(defs[0]))
+
+/* complete flow definitions for the pipes that look inside pictures and sound,
+ * with the kind of buffer that goes with each */
+enum { K_BLOCK = 0, K_PIC, K_S16, K_S32, K_F32P, K_VOID, K_S24BLOCK, K__N };
+static int cur_kind;                   /* of the flow definition accepted last */
+static struct ubuf_mgr *kind_mgr[K__N];
+
 
 static const struct sim_plan *plan;
 static struct umem_mgr *umem;
@@ -177,6 +220,13 @@ static bool fault_fired;
 static int type;
 
 
+/* which providers the application stacks on its probes (bit 0: the sinks answer
+ * requests). The pipes of the second batch assert on a manager nobody gave them:
+ * they only run in complete applications. */
+static uint64_t provide(void)
+{
+    return (types[type].flags & F_TYPED) ? 31 : (uint64_t)plan->cfg[CFG_PROVIDE];
+}
 static bool sim_violation_suppressed;
 static bool provider_failed;
 static bool checking(void) { return !sim_violation_class() && !sim_violation_suppressed; }
@@ -468,7 +518,7 @@ static int sink_control(struct upipe *upipe, int command, va_list args)
         return UBASE_ERR_NONE;
     case UPIPE_REGISTER_REQUEST: {
         struct urequest *rq = va_arg(args, struct urequest *);
-        if ((uint64_t)plan->cfg[CFG_PROVIDE] & 1) {
+        if (provide() & 1) {
             int err = upipe_throw_provide_request(upipe, rq);
             if (!ubase_check(err))
                 provider_failed = true;     /* (an injected failure in the provider) */
@@ -496,25 +546,41 @@ static void env_setup(void)
     static const char *const allow[] = { "uref_std_alloc_inner", "ubuf_block_mem_alloc_inner",
                                          "ubuf_mem_shared_alloc_inner", NULL };
     sim_alloc_set_allow_list(allow);
-    umem = umem_sim_mgr_alloc(3);
+    /* (pictures and sound are written through typed pointers: like malloc, 16-aligned for them) */
+    umem = umem_sim_mgr_alloc((types[type].flags & F_TYPED) ? 0 : 3);
     udict_mgr = udict_inline_mgr_alloc(depth[pool], umem, -1, -1);
     uref_mgr = uref_std_mgr_alloc(depth[pool], udict_mgr, 0);
     ubuf_mgr = ubuf_block_mem_mgr_alloc(depth[pool], depth[pool], umem, 0, 0, 0, 0);
     upump_mgr = upump_sim_mgr_alloc(depth[pool], depth[pool]);
     upump_sim_mgr_set_fifo(upump_mgr, twin_run);
+    memset(kind_mgr, 0, sizeof(kind_mgr));
+    if (types[type].flags & F_TYPED) {
+        kind_mgr[K_PIC] = ubuf_pic_mem_mgr_alloc(depth[pool], depth[pool], umem, 1, 0, 0, 0, 0, 16, 0);
+        ubuf_pic_mem_mgr_add_plane(kind_mgr[K_PIC], "y8", 1, 1, 1);
+        ubuf_pic_mem_mgr_add_plane(kind_mgr[K_PIC], "u8", 2, 2, 1);
+        ubuf_pic_mem_mgr_add_plane(kind_mgr[K_PIC], "v8", 2, 2, 1);
+        kind_mgr[K_S16] = ubuf_sound_mem_mgr_alloc(depth[pool], depth[pool], umem, 4, 16);
+        ubuf_sound_mem_mgr_add_plane(kind_mgr[K_S16], "lr");
+        kind_mgr[K_S32] = ubuf_sound_mem_mgr_alloc(depth[pool], depth[pool], umem, 8, 16);
+        ubuf_sound_mem_mgr_add_plane(kind_mgr[K_S32], "lr");
+        kind_mgr[K_F32P] = ubuf_sound_mem_mgr_alloc(depth[pool], depth[pool], umem, 4, 16);
+        ubuf_sound_mem_mgr_add_plane(kind_mgr[K_F32P], "l");
+        ubuf_sound_mem_mgr_add_plane(kind_mgr[K_F32P], "r");
+    }
+    cur_kind = K_BLOCK;
     uclock = uclock_sim_alloc();
     uprobe_init(&root, catch, NULL);
     urefcount_init(&root_refcount, noop_free);
     root.refcount = &root_refcount;
     /* the providers a real application stacks on its probes */
     chain = uprobe_use(&root);
-    if ((uint64_t)plan->cfg[CFG_PROVIDE] & 2)
+    if (provide() & 2)
         chain = uprobe_uref_mgr_alloc(chain, uref_mgr);
-    if ((uint64_t)plan->cfg[CFG_PROVIDE] & 4)
+    if (provide() & 4)
         chain = uprobe_ubuf_mem_alloc(chain, umem, depth[pool], depth[pool]);
-    if ((uint64_t)plan->cfg[CFG_PROVIDE] & 8)
+    if (provide() & 8)
         chain = uprobe_upump_mgr_alloc(chain, upump_mgr);
-    if ((uint64_t)plan->cfg[CFG_PROVIDE] & 16)
+    if (provide() & 16)
         chain = uprobe_uclock_alloc(chain, uclock);
     memset(sinks, 0, sizeof(sinks));
     for (int i = 0; i < NSINK; i++) {
@@ -563,6 +629,15 @@ static void env_teardown(void)
     udict_mgr_vacuum(udict_mgr);
     ubuf_mgr_vacuum(ubuf_mgr);
     upump_mgr_vacuum(upump_mgr);
+    for (int k = 0; k < K__N; k++)
+        if (kind_mgr[k] != NULL) {
+            ubuf_mgr_vacuum(kind_mgr[k]);
+            if (checking() && !urefcount_single(kind_mgr[k]->refcount))
+                sim_violation(V_REFCOUNT, "%s: a picture / sound buffer is still alive (its manager is not back to one reference)",
+                              types[type].name);
+            ubuf_mgr_release(kind_mgr[k]);
+            kind_mgr[k] = NULL;
+        }
     if (checking()) {
         if (!urefcount_single(&root_refcount))
             sim_violation(V_REFCOUNT, "%s: the probe is still referenced after the pipe was released", types[type].name);
@@ -599,18 +674,29 @@ static void env_teardown(void)
  * path: DESIGN.md 2.3): no allocation fault while they run */
 static bool faults_allowed(void)
 {
-    return ((uint64_t)plan->cfg[CFG_FAULTS] & 1) && strcmp(types[type].name, "m3u_reader") && !twin_run;
+    static const char *const no_error_path[] = { "m3u_reader", "row_split", NULL };
+    for (int i = 0; no_error_path[i] != NULL; i++)
+        if (!strcmp(types[type].name, no_error_path[i]))
+            return false;
+    return ((uint64_t)plan->cfg[CFG_FAULTS] & 1) && !twin_run;
+}
+/* the picture / sound filters of the second batch mostly use what they allocate
+ * while processing a buffer without testing it (no error path: DESIGN.md 2.3):
+ * allocations fail for them in control commands only */
+static bool faults_here(const struct sim_op *op)
+{
+    return faults_allowed() && !((types[type].flags & F_TYPED) && op->code == OP_INPUT);
 }
 static void arm(const struct sim_op *op)
 {
     int f = (int)((uint64_t)op->a[5] % 6);
-    if (f && faults_allowed())
+    if (f && faults_here(op))
         sim_alloc_arm(f);
 }
 static void disarm(const struct sim_op *op)
 {
     int f = (int)((uint64_t)op->a[5] % 6);
-    if (sim_alloc_disarm() == 0 && f && faults_allowed()) {
+    if (sim_alloc_disarm() == 0 && f && faults_here(op)) {
         fault_fired = true;
         /* a failure while the pipe asks for a manager or a clock leaves the
          * request unanswered: the pipe may wait for ever, like in an
@@ -623,6 +709,116 @@ static void disarm(const struct sim_op *op)
 
 static uint64_t seq;
 static bool flow_def_accepted;
+
+#define NTYPED 7
+static struct uref *typed_def(uint64_t which, uint64_t x, int *kind_p)
+{
+    struct uref *fd = NULL;
+    struct urational fps = { 25, 1 };
+    switch (which % NTYPED) {
+    case 0:
+        fd = uref_pic_flow_alloc_def(uref_mgr, 1);
+        if (fd != NULL) {
+            uref_pic_flow_add_plane(fd, 1, 1, 1, "y8");
+            uref_pic_flow_add_plane(fd, 2, 2, 1, "u8");
+            uref_pic_flow_add_plane(fd, 2, 2, 1, "v8");
+            uref_pic_flow_set_hsize(fd, 32);
+            uref_pic_flow_set_vsize(fd, 16);
+            uref_pic_flow_set_fps(fd, fps);
+            if (x & 16) uref_pic_set_progressive(fd);
+        }
+        *kind_p = K_PIC;
+        break;
+    case 1:
+        fd = uref_sound_flow_alloc_def(uref_mgr, "s16.", 2, 4);
+        if (fd != NULL) {
+            uref_sound_flow_add_plane(fd, "lr");
+            uref_sound_flow_set_rate(fd, 48000);
+            if (x & 16) uref_sound_flow_set_samples(fd, 32);
+        }
+        *kind_p = K_S16;
+        break;
+    case 2:
+        fd = uref_sound_flow_alloc_def(uref_mgr, "s32.", 2, 8);
+        if (fd != NULL) {
+            uref_sound_flow_add_plane(fd, "lr");
+            uref_sound_flow_set_rate(fd, 48000);
+        }
+        *kind_p = K_S32;
+        break;
+    case 3:
+        fd = uref_sound_flow_alloc_def(uref_mgr, "f32.", 2, 4);
+        if (fd != NULL) {
+            uref_sound_flow_add_plane(fd, "l");
+            uref_sound_flow_add_plane(fd, "r");
+            uref_sound_flow_set_rate(fd, 44100);
+        }
+        *kind_p = K_F32P;
+        break;
+    case 4:
+        fd = uref_void_flow_alloc_def(uref_mgr);
+        *kind_p = K_VOID;
+        break;
+    case 5:
+        fd = uref_alloc(uref_mgr);
+        if (fd != NULL) {
+            uref_flow_set_def(fd, "block.s24be.sound.");
+            uref_sound_flow_set_channels(fd, 2);
+            uref_sound_flow_set_rate(fd, 48000);
+        }
+        *kind_p = K_S24BLOCK;
+        break;
+    default:
+        fd = uref_alloc(uref_mgr);
+        if (fd != NULL)
+            uref_flow_set_def(fd, "block.");
+        *kind_p = K_BLOCK;
+        break;
+    }
+    return fd;
+}
+
+/* a buffer of the kind the accepted flow definition announces */
+static struct uref *typed_buffer(int kind, unsigned size, uint64_t content)
+{
+    struct uref *uref = NULL;
+    if (kind == K_VOID)
+        return uref_alloc(uref_mgr);
+    if (kind == K_PIC) {
+        uref = uref_pic_alloc(uref_mgr, kind_mgr[K_PIC], 32, 16);
+        static const char *const planes[] = { "y8", "u8", "v8" };
+        for (int p = 0; uref != NULL && p < 3; p++) {
+            uint8_t *w;
+            size_t stride = 0;
+            uint8_t hsub = 1, vsub = 1;
+            if (!ubase_check(uref_pic_plane_size(uref, planes[p], &stride, &hsub, &vsub, NULL)) ||
+                !ubase_check(uref_pic_plane_write(uref, planes[p], 0, 0, -1, -1, &w)))
+                continue;
+            for (int y = 0; y < 16 / vsub; y++)
+                for (int x = 0; x < 32 / hsub; x++)
+                    w[(size_t)y * stride + (size_t)x] = (uint8_t)(content * 31 + (uint64_t)(x + y * 3 + p));
+            uref_pic_plane_unmap(uref, planes[p], 0, 0, -1, -1);
+        }
+        return uref;
+    }
+    if (kind == K_S16 || kind == K_S32 || kind == K_F32P) {
+        int samples = 1 + (int)(size % 96);
+        uref = uref_sound_alloc(uref_mgr, kind_mgr[kind], samples);
+        const char *const *planes = kind == K_F32P ? (const char *const []){ "l", "r", NULL }
+                                                   : (const char *const []){ "lr", NULL };
+        size_t bytes = (size_t)samples * (kind == K_S32 ? 8 : 4);
+        for (int p = 0; uref != NULL && planes[p] != NULL; p++) {
+            uint8_t *w;
+            if (!ubase_check(uref_sound_plane_write_uint8_t(uref, planes[p], 0, -1, &w)))
+                continue;
+            for (size_t i = 0; i < bytes; i++)
+                w[i] = (uint8_t)(content * 13 + i + (size_t)p);
+            uref_sound_plane_unmap(uref, planes[p], 0, -1);
+        }
+        return uref;
+    }
+    return NULL;
+}
 
 static int genaux_get_a(struct uref *uref, uint64_t *p) { return uref_clock_get_cr_sys(uref, p); }
 static int genaux_get_b(struct uref *uref, uint64_t *p) { return uref_clock_get_pts_sys(uref, p); }
@@ -716,11 +912,13 @@ static void do_op(const struct sim_op *op)
     switch (op->code) {
     case OP_FLOW_DEF: {
         const char *def = defs[(uint64_t)op->a[0] % NDEFS];
-        struct uref *fd = uref_alloc(uref_mgr);
+        uint64_t x = (uint64_t)op->a[1];
+        int kind = K_BLOCK;
+        struct uref *fd = (types[type].flags & F_TYPED) ? typed_def((uint64_t)op->a[0], x, &kind) : uref_alloc(uref_mgr);
         if (fd == NULL)
             break;
-        uref_flow_set_def(fd, def);
-        uint64_t x = (uint64_t)op->a[1];
+        if (!(types[type].flags & F_TYPED))
+            uref_flow_set_def(fd, def);
         if (x & 1) uref_block_flow_set_octetrate(fd, 1000 + x % 100000);
         if (x & 2) uref_clock_set_latency(fd, x % 27000000);
         if (x & 4) uref_flow_set_id(fd, x % 100);
@@ -744,6 +942,7 @@ static void do_op(const struct sim_op *op)
             flow_defs_behind_held++;
         if (ubase_check(err)) {
             flow_def_accepted = true;
+            cur_kind = kind;
             SIM_PROBE("sweep_flow_def_accepted");
         } else
             SIM_PROBE("sweep_flow_def_refused");
@@ -754,6 +953,10 @@ static void do_op(const struct sim_op *op)
          * definition */
         if (!flow_def_accepted)
             break;
+        /* (second batch: a pipe whose request for a manager failed inside the
+         * provider asserts on the first buffer; incomplete application) */
+        if ((types[type].flags & F_TYPED) && provider_failed)
+            break;
         unsigned burst = 1 + (unsigned)((uint64_t)op->a[3] % 4);
         for (unsigned k = 0; k < burst && ut != NULL; k++) {
             unsigned size = (unsigned)((uint64_t)(op->a[0] + k) % 200);
@@ -762,16 +965,28 @@ static void do_op(const struct sim_op *op)
              * property is about that, empty buffers are kept away from it) */
             if (size == 0 && !strncmp(types[type].name, "rtp_", 4))
                 size = 1;
-            struct uref *uref = uref_block_alloc(uref_mgr, ubuf_mgr, (int)size);
+            bool blocks = cur_kind == K_BLOCK || cur_kind == K_S24BLOCK;
+            if (cur_kind == K_S24BLOCK)
+                size = size / 6 * 6;        /* whole 24-bit stereo samples */
+            struct uref *uref = blocks ? uref_block_alloc(uref_mgr, ubuf_mgr, (int)size)
+                                       : typed_buffer(cur_kind, size, (uint64_t)op->a[2] + k);
             if (uref == NULL)
                 break;
-            if (size) {
+            if (!blocks)
+                SIM_PROBE("sweep_typed_buffer_input");
+            if (size && blocks) {
                 uint8_t *w;
                 int s = -1;
                 if (ubase_check(uref_block_write(uref, 0, &s, &w))) {
                     for (int i = 0; i < s; i++)
                         w[i] = (uint8_t)((uint64_t)op->a[2] * 31 + (uint64_t)i * 7 + seq);
                     /* things parsers look for */
+                    /* (upipe_rtp_pcm_unpack shifts an octet promoted to int by 24:
+                     * undefined for octets above 0x7f, harmless everywhere, outside
+                     * every property: such octets are not generated for it) */
+                    if (cur_kind == K_S24BLOCK)
+                        for (int i = 0; i < s; i++)
+                            w[i] &= 0x7f;
                     if (s > 8 && ((uint64_t)op->a[2] & 1)) { w[0] = 0x47; }
                     if (s > 8 && ((uint64_t)op->a[2] & 2)) memcpy(w, "#EXTM3U\n", 8);
                     uref_block_unmap(uref, 0);
@@ -933,7 +1148,7 @@ static void do_op(const struct sim_op *op)
  * histories in which nothing may legitimately drop or keep a buffer. */
 static void drain(void)
 {
-    bool complete_env = ((uint64_t)plan->cfg[CFG_PROVIDE] & 31) == 31;
+    bool complete_env = (provide() & 31) == 31;
     if (!(types[type].flags & F_COMPLETE) || complete_tainted || any_refusal || fault_fired || provider_failed ||
         !complete_env || cur_out == NULL || seq > MAXSEQ || ut_fatal || ut_error)
         return;
@@ -984,7 +1199,22 @@ static bool run_once(void)
     struct upipe_mgr *mgr = types[type].mgr_alloc();
     ut_alloc = NULL;
     allocating = true;
-    ut = mgr ? upipe_void_alloc(mgr, uprobe_use(chain)) : NULL;
+    if (mgr != NULL && (types[type].flags & F_FLOW_ALLOC)) {
+        int kind;
+        /* three times out of four the kind of flow definition the type is made for */
+        static const struct { const char *name; int which; } hints[] = {
+            { "audio_blank", 1 }, { "audio_copy", 1 }, { "block_to_sound", 2 }, { "video_blank", 0 }, { "row_split", 0 },
+            { "audio_bar", 0 }, { "audio_graph", 0 }, { "void_source", 4 }, { "zoneplate", 0 }, { NULL, 0 } };
+        uint64_t which = (uint64_t)plan->cfg[CFG_ALLOCDEF];
+        if ((which >> 4) & 3)
+            for (int i = 0; hints[i].name != NULL; i++)
+                if (!strcmp(hints[i].name, types[type].name))
+                    which = (which & ~(uint64_t)7) | (uint64_t)hints[i].which;
+        struct uref *fd = typed_def(which & 7, which >> 3, &kind);
+        ut = fd != NULL ? upipe_flow_alloc(mgr, uprobe_use(chain), fd) : NULL;
+        uref_free(fd);
+    } else
+        ut = mgr ? upipe_void_alloc(mgr, uprobe_use(chain)) : NULL;
     allocating = false;
     upipe_mgr_release(mgr);
     if (ut == NULL) {
@@ -1009,7 +1239,7 @@ static bool run_once(void)
         /* pipes that keep themselves alive until their pumps are done */
         upump_sim_mgr_set_budget(upump_mgr, 64);
         upump_mgr_run(upump_mgr, NULL);
-        bool complete_env = ((uint64_t)plan->cfg[CFG_PROVIDE] & 31) == 31;
+        bool complete_env = (provide() & 31) == 31;
         if (checking() && ut_ready != 1)
             sim_violation(V_READY_ORDER, "%s threw ready %u times", types[type].name, ut_ready);
         else if (checking() && ut_dead > 1)
@@ -1106,6 +1336,7 @@ static void gen(const char *pr, struct sim_rng *r, struct sim_plan *p)
     p->cfg[CFG_POOL] = sim_rng_below(r, 5);
     p->cfg[CFG_FAULTS] = sim_rng_chance(r, 1, 3);
     p->cfg[CFG_PROVIDE] = sim_rng_chance(r, 9, 10) ? 31 : sim_rng_below(r, 32);
+    p->cfg[CFG_ALLOCDEF] = sim_rng_below(r, 64);
     int n = 3 + (int)sim_rng_below(r, 24);
     /* most histories negotiate something the pipe may accept first */
     int first = (int)sim_rng_below(r, NDEFS);
